@@ -291,8 +291,16 @@ func (c *Ctx) visitInstr(fr *frame, instr ssa.Instruction) (ret bool) {
 
 	case *ssa.Go:
 		fn, args := c.prepareCall(fr, &instr.Call)
-		// goroutines are run synchronously at the spawn point (DESIGN 2.1)
-		c.call(fr, instr.Pos(), fn, args)
+		// goroutines are run synchronously: at the spawn point by default, or (option defergo) at the
+		// next WaitGroup.Wait / end of harness - the two extreme schedules of a fork-join region
+		if c.h != nil && c.h.deferGo && !c.tolerant {
+			if c.specDepth > 0 {
+				panic(specAbort{"go statement"})
+			}
+			c.pendingGo = append(c.pendingGo, pendingGo{fn: fn, args: args, fr: fr, pos: instr.Pos()})
+		} else {
+			c.call(fr, instr.Pos(), fn, args)
+		}
 
 	case *ssa.MakeChan:
 		n, _ := concreteInt(fr.get(instr.Size))
